@@ -296,6 +296,76 @@ def r147_orientation_free_guards(ctx, res):
     ctx.require(res, "R14.7", n, 2, "builders with edge vectors")
 
 
+def r148_inputs_used(ctx, res):
+    """R14.8: the object a builder returns depends on every one of its inputs (backward slice from the returned value:
+    data dependences through assignments, container updates and loops, control dependences through the enclosing tests)"""
+    import ast
+    from ..model import walk_local
+    from ..astutil import parents
+    n = 0
+    for short in BUILDERS:
+        fi = ctx.repo.fn(short)
+        par = parents(fi.node)
+        relevant, stmts_seen = set(), set()
+
+        def names(e):
+            return {x.id for x in ast.walk(e) if isinstance(x, ast.Name)}
+
+        def add_ctl(node):
+            # tests / loop headers enclosing a relevant statement
+            p_ = par.get(id(node))
+            out = set()
+            while p_ is not None and p_ is not fi.node:
+                if isinstance(p_, (ast.If, ast.While)):
+                    out |= names(p_.test)
+                elif isinstance(p_, ast.For):
+                    out |= names(p_.iter) | names(p_.target)
+                p_ = par.get(id(p_))
+            return out
+
+        for r in walk_local(fi.node):
+            if isinstance(r, ast.Return) and r.value is not None:
+                relevant |= names(r.value) | add_ctl(r)
+        changed = True
+        while changed:
+            changed = False
+            for st in walk_local(fi.node):
+                new = set()
+                if isinstance(st, (ast.Assign, ast.AugAssign, ast.AnnAssign)) and getattr(st, "value", None) is not None:
+                    tg = st.targets if isinstance(st, ast.Assign) else [st.target]
+                    tn = set()
+                    for t in tg:
+                        tn |= names(t)
+                    if tn & relevant:
+                        new = names(st.value) | tn | add_ctl(st)
+                elif isinstance(st, ast.For):
+                    if names(st.target) & relevant:
+                        new = names(st.iter) | add_ctl(st)
+                elif isinstance(st, ast.Expr) and isinstance(st.value, ast.Call) and isinstance(st.value.func, ast.Attribute):
+                    # container update / in-place method on a relevant local: receiver.m(args)
+                    if names(st.value.func.value) & relevant:
+                        new = names(st.value) | add_ctl(st)
+                elif isinstance(st, ast.comprehension):
+                    if names(st.target) & relevant:
+                        new = names(st.iter)
+                if not new <= relevant:
+                    relevant |= new
+                    changed = True
+        for p_ in fi.params:
+            if p_ in ("cls", "self"):
+                continue
+            n += 1
+            ok = p_ in relevant
+            res.ob("R14.8", fi.where(), "%s: input `%s`" % (short, p_), ok,
+                   "the returned object depends on it" if ok else "the returned object does not depend on it")
+            if not ok:
+                res.violation("R14.8", fi, fi.node,
+                              "%s ignores its input `%s`: no data or control dependence leads from it to the returned object, so every "
+                              "value of `%s` builds the same shape (a default or a constant is used in its place)" % (short, p_, p_),
+                              construct="%s ignores %s" % (short, p_))
+    ctx.require(res, "R14.8", n, 20, "builder inputs")
+
+
 def run(ctx, res):
     res.explanation = (
         "Static decision of four structural clauses of C14: the seven builders (Parallelogram, Parallelepiped, Circle, "
@@ -334,6 +404,7 @@ def run(ctx, res):
     r145_frame(ctx, res)
     r146_rings_agree(ctx, res)
     r147_orientation_free_guards(ctx, res)
+    r148_inputs_used(ctx, res)
     # R14.3
     check_guard(ctx, res, GuardOb("get_circle_point_list", "n >= 3", "a circle with n < 3 must be rejected",
                                   inputs_any={"n"}, min_accept=3, subject="n"), rule="R14.3")
